@@ -454,7 +454,7 @@ pub fn minimise(p: &dyn Property, sc: Scenario, v: Violation, max_runs: usize) -
     'outer: loop {
         let cands = shrink_candidates(p, &best);
         for mut c in cands {
-            if runs >= max_runs || t0.elapsed().as_secs() > 120 {
+            if runs >= max_runs || t0.elapsed().as_secs() > 45 {
                 break 'outer;
             }
             if !p.repair(&mut c) {
